@@ -53,12 +53,17 @@ type WitnessDecl struct {
 }
 
 type FuncSpec struct {
+	Closure     []string // heaps for which the entry-closure axiom is wanted (every pointer stored there at entry was allocated before entry)
 	Witness     []*WitnessDecl
 	Name        string // full function name as printed by fnName, or "iface:<pkg.Iface.Method>", "fntype:<pkg.Type>"
 	ParamNames  []string
 	ResultNames []string
 	Requires    []*Clause
 	Ensures     []*Clause
+	// data-structure invariants of the receiver: assumed at entry, proved at exit; NOT re-proved at call sites
+	// (sound provided every writer of the fields they mention is a function that carries the same invariant:
+	// the encapsulation audit of the property that uses them)
+	Invariants []*Clause
 	Modifies    []string
 	ModifiesAll bool
 	Macros      map[string]*Macro
@@ -348,7 +353,7 @@ func (cs *Contracts) parseFile(file string) {
 
 func (cs *Contracts) clause(cur *FuncSpec, word, rest, file string, line int) {
 	switch word {
-	case "requires", "ensures":
+	case "requires", "ensures", "invariant":
 		label, props, body, ok := parseLabelProps(rest)
 		if !ok {
 			cs.errf(file, line, "%s label [props]: expr", word)
@@ -360,10 +365,13 @@ func (cs *Contracts) clause(cur *FuncSpec, word, rest, file string, line int) {
 			return
 		}
 		cl := &Clause{Kind: word, Label: label, Props: props, Src: body, Expr: ex, File: file, Line: line}
-		if word == "requires" {
+		switch word {
+		case "requires":
 			cur.Requires = append(cur.Requires, cl)
-		} else {
+		case "ensures":
 			cur.Ensures = append(cur.Ensures, cl)
+		default:
+			cur.Invariants = append(cur.Invariants, cl)
 		}
 	case "modifies":
 		for _, h := range strings.Split(rest, ",") {
@@ -512,6 +520,12 @@ func (cs *Contracts) clause(cur *FuncSpec, word, rest, file string, line int) {
 		}
 		wd.Expr = ex
 		cur.Witness = append(cur.Witness, wd)
+	case "closure":
+		for _, h := range strings.Split(rest, ",") {
+			if h = strings.TrimSpace(h); h != "" {
+				cur.Closure = append(cur.Closure, h)
+			}
+		}
 	case "safety":
 		cur.SafetyProps = append(cur.SafetyProps, strings.FieldsFunc(strings.Trim(rest, "[]"), func(r rune) bool { return r == ' ' || r == ',' })...)
 	case "trusted":
